@@ -530,7 +530,7 @@ class Interp:
         elif f in ("_changed", "_rendering_change"):
             v = False
         elif f == "classes":
-            v = Opaque("classes")
+            v = Lst([Opaque(f"class-of-{cell.cid}")])  # a mutable list owned by this node
         elif f == "cloned_node":
             v = None
         elif f == "cloned_target":
@@ -984,6 +984,8 @@ class Interp:
         if isinstance(a, str) and isinstance(b, str):
             return a == b
         if isinstance(a, Tup) and isinstance(b, Tup):
+            return len(a.items) == len(b.items) and all(self._equal(x, y) for x, y in zip(a.items, b.items))
+        if isinstance(a, Lst) and isinstance(b, Lst):
             return len(a.items) == len(b.items) and all(self._equal(x, y) for x, y in zip(a.items, b.items))
         if isinstance(a, (Rec, Lst)) or isinstance(b, (Rec, Lst)):
             return a is b
